@@ -153,6 +153,16 @@ def known_keys(prop):
             if k["property"] == prop}
 
 
+def _dedupe(items):
+    seen, out = set(), []
+    for it in items:
+        k = json.dumps(it, sort_keys=True, default=str)
+        if k not in seen:
+            seen.add(k)
+            out.append(it)
+    return out
+
+
 class Result:
     """Collects what one check run did and writes evidence."""
 
@@ -201,7 +211,7 @@ class Result:
                 "evaluations": self.evaluations,
                 "distinct_nontrivial": self.distinct,
                 "rule": self.rule,
-                "samples": self.samples[:12],
+                "samples": _dedupe(self.samples)[:12],
                 "functions_encoded": self.functions,
                 "bounds": self.bounds,
                 "stubs": self.stubs,
